@@ -499,7 +499,7 @@ def get_one(I, ind, seq, default, node):
             if default is not None:
                 return default
             I.note("missing-key", short(node, 60) if node is not None else "", f"get({ind.v!r}) not in {list(seq.items)[:8]}")
-            raise _Raise(f"KeyError {ind.v!r}")
+            raise _Raise(f"KeyError {ind.v!r}", ["KeyError", "LookupError", "Exception", "BaseException", "object"])
         return I.getitem(seq, ind, node)
     if isinstance(ind, Leaf) and isinstance(seq, DictS):
         alts = list(seq.items.values())
@@ -856,6 +856,11 @@ def to_py(v):
         if any(i is _NOPY for i in items):
             return _NOPY
         return items if isinstance(v, ListLit) else tuple(items)
+    if isinstance(v, DictS) and not v.optional:
+        vals = {k: to_py(x) for k, x in v.items.items()}
+        if any(i is _NOPY for i in vals.values()):
+            return _NOPY
+        return vals
     return _NOPY
 
 
@@ -865,6 +870,11 @@ STR_KINDS = {"lower", "upper", "strip", "lstrip", "rstrip", "removeprefix", "rem
 def call_method(I, recv, name, args, kwargs, node):
     if isinstance(recv, Choice):
         return Choice([call_method(I, x, name, args, kwargs, node) for x in recv.alts])
+    if name == "__getitem__" and len(args) == 1 and not kwargs and isinstance(recv, (DictS, ListLit, TupS, Const)):
+        return I.getitem(recv, args[0], node)  # the bound special method taken as a value (table.__getitem__)
+    if name == "__contains__" and len(args) == 1 and not kwargs and isinstance(recv, (DictS, ListLit, TupS, SetS)):
+        res = I.contains(recv, args[0])
+        return Const(res) if res is not None else Top("membership unknown")
     if isinstance(recv, DictS):
         if name == "items":
             return ListLit([TupS([Const(k), v]) for k, v in recv.items.items()])
@@ -891,7 +901,7 @@ def call_method(I, recv, name, args, kwargs, node):
                         recv.optional.discard(k.v)
                     return Choice([v, default]) if opt else v
                 if name == "pop" and len(args) < 2:
-                    raise _Raise(f"KeyError {k.v!r}")
+                    raise _Raise(f"KeyError {k.v!r}", ["KeyError", "LookupError", "Exception", "BaseException", "object"])
                 return default
             if isinstance(k, (Leaf, Top)):
                 if t is not None:
